@@ -109,6 +109,34 @@ class Ctx:
         self.java = []     # (key, text, detail) of Java mutants to be compiled
 
 
+def _unconstrained_call_type_argument(prog, call, idx):
+    """The idx-th type parameter of the called generic function occurs neither in the type of a parameter for which this
+    call supplies an argument nor in the result type: nothing in the program constrains the explicit type argument."""
+    from src.ir import ast
+    from vlib import walk
+    decls = [o for o, _ in walk.reachable(prog) if isinstance(o, ast.FunctionDeclaration) and o.name == call.func and
+             len(o.type_parameters) > idx]
+    if not decls:
+        return False
+    for f in decls:
+        name = f.type_parameters[idx].name
+        named = {a.name for a in call.args if getattr(a, 'name', None)}
+        npos = len([a for a in call.args if not getattr(a, 'name', None)])
+        supplied = []
+        i = 0
+        for p in f.params:
+            if p.name in named:
+                supplied.append(p)
+            elif i < npos or p.vararg:
+                supplied.append(p)
+                i += 1
+        mentions = [p for p in supplied if name in rm.free_vars(mutdiff.term_of(p.get_type()) or ('c', '?'))]
+        rt = mutdiff.term_of(f.get_type())
+        if mentions or (rt is not None and name in rm.free_vars(rt)):
+            return False
+    return True
+
+
 def judge_mutation(ctx, case, base_prog, base_text, base_rc_clean, stage, mseed):
     col, lang = ctx.col, ctx.lang
     prog = pg.clone(base_prog)
@@ -183,6 +211,8 @@ def judge_mutation(ctx, case, base_prog, base_text, base_rc_clean, stage, mseed)
                 viols.append(('C04/call-type-arguments-changed-in-more-than-one', {'slot': mutdiff.show_slot(ss[0])}))
             else:
                 old_ir, new_ir = oa[diffs[0]], na[diffs[0]]
+                if _unconstrained_call_type_argument(prog, ta['owner_obj'], diffs[0]):
+                    kind = 'call-type-argument+unconstrained'
         else:
             viols.append(('C04/unexpected-slot-set/%s/%s' % (owner, '+'.join(attrs)),
                           {'slots': [mutdiff.show_slot(s) for s in ss]}))
